@@ -554,7 +554,8 @@ def check_static_case(case):
                 how = ("wrong-value", "other task received %r / result %r" % (got["other"], obs[1]))
         if how is not None:
             threaded_ok = False
-            fails.append({"class": "static:%s:%s" % (vname, how[0]), "what": "[%s] %s (dispatch %s)" % (text, how[1], mode),
+            shape_tag = ("results-string" if _has_results_str(v) else "") + ("task-tuple" if _has_task_tuple(v) else "")
+            fails.append({"class": "static:%s:%s" % (shape_tag or "plain-value", how[0]), "what": "[%s] %s (dispatch %s)" % (text, how[1], mode),
                           "mode": mode, "how": how[0], "has_results_str": _has_results_str(v),
                           "has_task_tuple": _has_task_tuple(v)})
     return fails, n
